@@ -253,9 +253,9 @@ def remove_genes(
             # have body at all, which is why this isn't if body is None.
             if not hasattr(rxn.gpr, "body"):
                 rxn.gpr.body = None
-                rxn._genes = set()
-            else:
-                rxns_to_revisit.add(rxn)
+            # The remaining genes of the rule, if any, and the ones that were only
+            # part of the removed branches are (dis)associated below.
+            rxns_to_revisit.add(rxn)
             if context:
                 context(partial(setattr, rxn, "gpr", old_gpr))
                 context(partial(rxn.update_genes_from_gpr))
